@@ -15,7 +15,8 @@ RULE = ('send((generator, size)) with an instrumented generator that counts pull
         'them is pulled; generator short -> BadGeneratorError exactly once, request failed, never completed as a shorter or padded '
         'message (the bytes on the wire are a strict prefix announcing the declared size). Replayed on the extracted model.'
         ' (blocking) blocking_send=True with send(send_timeout=0): nothing is pulled inside send(), afterwards the pulls follow the emitted bytes.'
-        ' A third of the short transfers run under a rate limiter of two frames per window (frames held back, never lost; same laziness bound).')
+        ' A third of the short transfers run under a rate limiter of two frames per window (frames held back, never lost; same laziness bound).'
+        ' (shared) one generator object feeds two or three successive requests: each transfer carries the next [size] values, the generator is not closed and still yields the following value afterwards.')
 ASSUME = ['user generators yield ints 0..255 and do not raise']
 
 
@@ -115,7 +116,83 @@ def blocking_lazy_run(rng):
     return fails, {'inst': inst, 'size': size, 'trace': trace[:8]}
 
 
+def shared_generator_run(rng):
+    """values beyond the declared size are never consumed: one generator object feeds two or three successive requests; each transfer
+    carries the next [size] values, and afterwards the generator still yields the value that follows."""
+    import isotp
+    tx_dl = rng.choice([8, 12, 64])
+    mode = rng.choice(['Normal_11bits', 'Extended_29bits'])
+    a = rand_address(rng, mode)
+    plen = 1 if mode != 'Normal_11bits' else 0
+    params = {'tx_data_length': tx_dl, 'stmin': 0}
+    if tx_dl > 8:
+        params['can_fd'] = True
+    inst = {'txa': a, 'rxa': None, 'params': params}
+    rid, ext, pfx = reach(inst)
+    sizes = [rng.choice([1, 5, tx_dl - 2 - plen, tx_dl * 2, 100]) for _ in range(rng.choice([2, 3]))]
+    closed = [False]
+
+    def g():
+        i = 0
+        try:
+            while True:
+                yield i & 0xFF
+                i += 1
+        finally:
+            closed[0] = True
+    gen = g()
+    sent, inbox, done = [], [], []
+    layer = isotp.TransportLayerLogic(rxfn=lambda: inbox.pop(0) if inbox else None, txfn=sent.append, address=make_layer_address(inst), params=dict(params),
+                                      error_handler=lambda e: done.append('err:' + type(e).__name__))
+    fails = []
+    start = 0
+    for size in sizes:
+        del sent[:]
+        layer.send((gen, size))
+        for step in range(600):
+            layer.process()
+            if not layer.transmitting():
+                break
+            inbox.append(isotp.CanMessage(arbitration_id=rid, data=pfx + bytes([0x30, 0, 0]), extended_id=bool(ext)))
+        data = b''
+        for m_ in sent:
+            d = bytes(m_.data)[plen:]
+            t = d[0] >> 4
+            if t == 0:
+                data += d[1:1 + (d[0] & 0xF)] if d[0] & 0xF else d[2:2 + d[1]]
+            elif t == 1:
+                data += d[2:] if (d[1] or d[0] & 0xF) else d[6:]
+            elif t == 2:
+                data += d[1:]
+        want = bytes((start + j) & 0xFF for j in range(size))
+        if data[:size] != want or done:
+            fails.append(('C17:values-beyond-size-consumed', 'request of %d values from a shared generator (values %d.. expected): emitted %s..., errors %s' % (
+                size, start, data[:8].hex(), done[:2])))
+            break
+        start += size
+    if not fails:
+        if closed[0]:
+            fails.append(('C17:values-beyond-size-consumed', 'the generator was closed by the layer after its request completed'))
+        else:
+            nxt = next(gen, None)
+            if nxt != (start & 0xFF):
+                fails.append(('C17:values-beyond-size-consumed', 'after the transfers the generator yields %r, expected %d' % (nxt, start & 0xFF)))
+    return fails, {'inst': inst, 'sizes': sizes}
+
+
 def run_shard(campaign, shard, nshards, seed, tier):
+    if campaign == 'shared':
+        part = Part()
+        rng = random.Random('%s/%s/%s' % (seed, campaign, shard))
+        for _ in range((40 if tier != 'thorough' else 2000) // nshards + 1):
+            fails, info = shared_generator_run(rng)
+            part.d['evaluations'] += 1
+            part.distinct(info)
+            part.hist('shared_sizes', str(info['sizes']))
+            if fails:
+                part.violation('oracle', campaign, fails[0][0], fails[0][1], {'scenario': 'shared generator', 'info': info})
+            part.sample(info)
+        return part.result()
     if campaign == 'blocking':
         part = Part()
         rng = random.Random('%s/%s/%s' % (seed, campaign, shard))
@@ -217,4 +294,5 @@ def run_shard(campaign, shard, nshards, seed, tier):
 def run(ctx):
     run_sharded(ctx, 'C17', 'generator')
     run_sharded(ctx, 'C17', 'blocking')
+    run_sharded(ctx, 'C17', 'shared', nshards=4)
     return RULE, ASSUME
